@@ -7,14 +7,87 @@ Decided:
   SHAPE-C13b  the exact (Uncompressed) arm of VecIndex::search scores *every* document (map over documents.iter()),
               orders by distance with an ascending comparator (a vs b, not reversed) and truncates after sorting;
               an unrecognised ordering mechanism fails closed.
+  COVER-C13c  the distance kernel behind the exact search (simd::l2_distance_squared_simd, lane-blocked) visits every
+              element exactly once: the block count is len / L, the remainder count len % L, block i reads the L
+              indices i*L + 0..L-1 of both operands, and the scalar tail starts at chunks*L - with one and the same
+              constant L (the lane width of the vector type). A kernel written with chunks_exact/remainder gets the
+              partition from the library and is accepted; any other shape fails closed.
 Not decided: float semantics of the distance and of partial_cmp (NaN), equality of results after reopen."""
+import re
 from . import lib
 from .facts import op_place
 
 ENTRIES = ('Memvid::search_vec', 'Memvid::vec_search_with_embedding_acl')
 
 
+def kernel_partition(ctx, F):
+    ctx.rule('COVER-C13c', 'lane-blocked distance kernel partitions the index range: len/L blocks of L, tail from chunks*L, len%L tail elements, one L')
+    fn = F.fn('simd::l2_distance_squared_simd')
+    if fn is None:
+        ctx.lost('COVER-C13c', 'simd::l2_distance_squared_simd not found')
+        return
+    ctx.touch(fn, len(fn.blocks))
+    if not any('f32x' in fn.local_ty(l) for l in range(len(fn.r['locals']))):
+        ctx.ok('COVER-C13c', fn, 'scalar kernel (no lane blocking in this configuration)')
+        return
+    names = {c.name for c in fn.calls()}
+    if 'chunks_exact' in names and 'remainder' in names:
+        ctx.ok('COVER-C13c', fn, 'blocks and tail come from chunks_exact()/remainder(): the library partitions the slice')
+        return
+    lanes = {int(m) for l in range(len(fn.r['locals'])) for m in re.findall(r'f32x(\d+)', fn.local_ty(l))}
+    div, rem, mul = set(), set(), []
+    for bb, i, st in fn.stmts():
+        rv = st['rv']
+        if rv['k'] != 'bin':
+            continue
+        k = rv['b'].get('k', {}).get('v') if 'k' in rv['b'] else None
+        if rv['op'] == 'Div' and k is not None:
+            div.add(k)
+        elif rv['op'] == 'Rem' and k is not None:
+            rem.add(k)
+        elif rv['op'] in ('Mul', 'MulWithOverflow') and k is not None:
+            mul.append((k, bb, i, st))
+    ctx.evaluations += len(mul) + len(div) + len(rem)
+    if len(lanes) != 1 or len(div) != 1 or len(rem) != 1:
+        ctx.lost('COVER-C13c', 'kernel shape not recognised: lane widths %s, len/ constants %s, len%% constants %s' % (sorted(lanes), sorted(div), sorted(rem)))
+        return
+    L = lanes.pop()
+    problems = []
+    if div != {L}:
+        problems.append('block count divides by %s, lanes are %d' % (sorted(div), L))
+    if rem != {L}:
+        problems.append('remainder is taken modulo %s, lanes are %d' % (sorted(rem), L))
+    # the chunk count and remainder locals
+    chunks = {st['lhs']['l'] for bb, i, st in fn.stmts() if st['rv']['k'] == 'bin' and st['rv']['op'] == 'Div'}
+    block_mul = tail_mul = None
+    for k, bb, i, st in mul:
+        sl = lib.slice_back(fn, [st['rv']['a']], through_calls=False, at=(bb, i))
+        if sl.locals & chunks and not any(c.name == 'next' for c in sl.calls):
+            tail_mul = (k, st)
+        else:
+            block_mul = (k, st)
+    if block_mul is None or block_mul[0] != L:
+        problems.append('block offset is not i * %d' % L)
+    if tail_mul is None:
+        problems.append('the scalar tail does not start at chunks * %d (no such product reaches the tail indices)' % L)
+    elif tail_mul[0] != L:
+        problems.append('the scalar tail starts at chunks * %d, lanes are %d' % (tail_mul[0], L))
+    # every lane offset 0..L-1 is read from both operands in the block loop
+    offs = set()
+    for bb, i, st in fn.stmts():
+        rv = st['rv']
+        if rv['k'] == 'bin' and rv['op'] in ('Add', 'AddWithOverflow') and 'k' in rv['b'] and isinstance(rv['b']['k'].get('v'), int):
+            offs.add(rv['b']['k']['v'])
+    if not set(range(1, L)) <= offs:
+        problems.append('block loads do not cover the lane offsets 0..%d' % (L - 1))
+    if problems:
+        ctx.bad('COVER-C13c', fn, 'the lane-blocked kernel does not visit every element exactly once: ' + '; '.join(problems), detail='kernel-partition:' + ';'.join(p.split(' ')[0] + p.split(' ')[1] for p in problems))
+    else:
+        ctx.ok('COVER-C13c', fn, 'len/%d blocks of %d lanes (offsets 0..%d), tail of len%%%d elements from chunks*%d' % (L, L, L - 1, L, L))
+
+
 def run(ctx):
+    kernel_partition(ctx, ctx.facts())
     ctx.rule('GUARD-C13a', 'VecIndex::search reachable only past the query-dimension comparison; failing edge -> VecDimensionMismatch')
     ctx.rule('SHAPE-C13b', 'exact arm: score all documents, sort ascending by distance, then truncate(limit)')
     F = ctx.facts()
